@@ -136,7 +136,9 @@ func (c *tcpScripted) DialStream(ctx context.Context, addr conn.Addr, payload []
 	w := c.w
 	k, act, ok := w.nextAct(c.id)
 	if !ok {
-		return nil, errors.New("script exhausted")
+		// a round started after the scripted history: stay in flight until the harness stops the service
+		<-ctx.Done()
+		return nil, ctx.Err()
 	}
 	if !addr.Equals(probeAddr) {
 		w.complain("probe dials %s, configured %s", addr, probeAddr)
@@ -260,8 +262,10 @@ func buildGroup(c Case, w *world) (tcp netio.StreamClient, udp zerocopy.UDPClien
 // ---------- engine "groups" ----------
 
 func runGroups(t *testing.T, c Case) (obs groupsObs) {
-	w := &world{c: c, T: time.Duration(c.effTimeout()), calls: make([]int, c.N+outsiders+200), doneCh: make(chan int, 4*c.N+8)}
+	w := &world{c: c, T: time.Duration(c.effTimeout()), calls: make([]int, c.N+outsiders+200)}
 	body := func(t *testing.T) {
+		// channels must be created inside the bubble: waiting on an outside channel is not "durably blocked"
+		w.doneCh = make(chan int, 4*c.N+8)
 		ctx, cancel := context.WithCancel(context.Background())
 		defer cancel()
 		tg, ug, svcs, err := buildGroup(c, w)
@@ -295,11 +299,7 @@ func runGroups(t *testing.T, c Case) (obs groupsObs) {
 		// drain completions of probes that were started after the script ended
 		synctest.Wait()
 	}
-	if c.Proto == "udp" {
-		runUDPBubble(t, body)
-	} else {
-		synctest.Test(t, body)
-	}
+	runBubble(t, c.Proto == "udp", body)
 	w.mu.Lock()
 	obs.Mid = w.mid
 	if len(w.bad) > 0 && obs.Err == "" {
